@@ -49,6 +49,9 @@ def gen(ctx, tier, rng):
         L.append("alloc.probe %d last" % s)
         for i in range(16):
             L.append("alloc.probe %d canary %d" % (s, i))
+            if i in (0, 7, 8, 15):      # with SIGSEGV ignored / handled by a handler that returns: the process must still be terminated
+                L.append("alloc.probe %d canary.ign %d" % (s, i))
+                L.append("alloc.probe %d canary.hdl %d" % (s, i))
         L.append("alloc.probe %d before 0" % s)
     hist = ["".join(h) for n in range(0, 5) for h in itertools.product("nrw", repeat=n)]
     for s in ([100, PG - 16, PG + 1] if not full else sizes):
